@@ -31,6 +31,12 @@ Definition bcoo_transpose br bc (A : coo (list F)) : coo (list F) :=
   mkCoo (coo_nc A) (coo_nr A) (map (fun e => (ecol e, erow e, tblock br bc (eval e))) (coo_ents A)).
 Definition bsr_transpose br bc (A : csr (list F)) : csr (list F) := coo_to_csr (bcoo_transpose br bc (csr_to_coo A)).
 Definition bsc_transpose br bc (A : csc (list F)) : csc (list F) := coo_to_csc (bcoo_transpose br bc (csc_to_coo A)).
+
+(* block remove_duplicates = the scalar routines at T = blocks with entrywise addition (append_vals) and
+   abs_val(block) = sum of |entries| compared with zero_tol *)
+Variable add : F -> F -> F.
+Fixpoint vadd (a b : list F) : list F :=
+  match a, b with x :: a', y :: b' => add x y :: vadd a' b' | _, _ => a end.
 End Block.
 
 (* value maps: the (r, c) slice of a block matrix is the scalar matrix of the blocks' (r, c) entries *)
@@ -46,4 +52,4 @@ End Maps.
 Arguments coo_map {T U}. Arguments line_map {T U}. Arguments csr_map {T U}. Arguments csc_map {T U}.
 
 Arguments expand_ent {F}. Arguments bcoo_expand {F}. Arguments bsr_expand {F}. Arguments bsc_expand {F}.
-Arguments bsr_to_csr {F}. Arguments tblock {F}. Arguments bcoo_transpose {F}. Arguments bsr_transpose {F}. Arguments bsc_transpose {F}.
+Arguments bsr_to_csr {F}. Arguments tblock {F}. Arguments bcoo_transpose {F}. Arguments bsr_transpose {F}. Arguments bsc_transpose {F}. Arguments vadd {F}.
